@@ -89,6 +89,7 @@ type calcOp struct {
 	again  int64 // result of an immediate second call on the same buffer (-1<<62 when not made)
 	twice  bool
 	found  bool
+	reuse  bool // pooled buffer: this call reuses the previous call's backing array (same offsets, same length, other bytes)
 }
 
 // callCalc invokes svc.Calc(buf) by reflection, so that the harness does not pin the services'
@@ -111,7 +112,7 @@ func callCalc(svc any, buf *bytes.Buffer) (v int64, ok bool) {
 func init() {
 	register(&scenario{
 		Prop: "C14", Run: runC14, Race: true, RunsPerProcess: 100, Level: "exploration", Quick: 60000, Thorough: 2000000, AbortIsViolation: true,
-		Rule:        "one run = 1-4 tasks x 1-5 Calc calls on the four built-in checksum services obtained from the registry (shared singleton objects, as every frame encoder uses them); each call gets its own buffer built over a simulator-owned array with a seeded history (0-300 bytes already consumed, capacity slack 0/1/64/4096, the array outside the unread region filled with a marker); data is seeded: empty, 1-3 bytes, runs of 0xFF / 0x80 / 0x00, random bytes up to 4096 (thorough: rarely 8.5 MB of 0xFF), or the same bytes another task uses; a call is optionally repeated on the same buffer; a seeded scheduler interleaves the tasks at instrumented statements of codec/checksum.go. Oracles per call: result == independent implementation of the published definition (CRC-16/MODBUS, CRC-32/IEEE, byte sum mod 256) over exactly the unread bytes; byte-sum results in 0..255; buffer Len and unread bytes unchanged, whole backing array unchanged (nothing consumed, nothing modified); repeated call and calls on equal bytes from other tasks/with other histories give the same value; Go race detector with scheduler hand-offs hidden (state kept in a shared service object is reported). Non-trivial = a buffer history, a repeat or a context switch inside Calc actually occurred and the oracle ran; distinct = distinct run fingerprints.",
+		Rule:        "one run = 1-4 tasks x 1-5 Calc calls on the four built-in checksum services obtained from the registry (shared singleton objects, as every frame encoder uses them); each call gets its own buffer built over a simulator-owned array with a seeded history (0-300 bytes already consumed, capacity slack 0/1/64/4096, the array outside the unread region filled with a marker); data is seeded: empty, 1-3 bytes, runs of 0xFF / 0x80 / 0x00, random bytes up to 4096 (thorough: rarely 8.5 MB of 0xFF), or the same bytes another task uses, rarely 70 KB - 1 MiB; a call is optionally repeated on the same buffer; a third of the follow-up calls reuse the caller's previous backing array rewritten in place with other bytes of the same length (pooled buffer); a seeded scheduler interleaves the tasks at instrumented statements of codec/checksum.go. Oracles per call: result == independent implementation of the published definition (CRC-16/MODBUS, CRC-32/IEEE, byte sum mod 256) over exactly the unread bytes; byte-sum results in 0..255; buffer Len and unread bytes unchanged, whole backing array unchanged (nothing consumed, nothing modified); repeated call and calls on equal bytes from other tasks/with other histories give the same value; Go race detector with scheduler hand-offs hidden (state kept in a shared service object is reported). Non-trivial = a buffer history, a repeat or a context switch inside Calc actually occurred and the oracle ran; distinct = distinct run fingerprints.",
 		Assumptions: []string{"reference implementations in the harness (frames.go, props_checksum.go) are validated against the catalogue check values of CRC-16/MODBUS and CRC-32/IEEE at start-up", "the part of the statement that ranges over every byte string is sampled, not enumerated; what the simulation adds is the buffer history, the service-object history and the interleaving of calls on the shared objects"},
 	})
 }
@@ -150,6 +151,16 @@ func runC14(c *RunCtx) {
 			d = bytes.Repeat([]byte{0xFF}, n)
 			desc = fmt.Sprintf("ff(%d)", n)
 			c.Probe("jumbo-input")
+		case k == 5 && t.Chance(1, 30):
+			// large inputs: services that treat big buffers differently (block-wise paths)
+			sizes := []int{70_000, 262_144, 262_145, 300_000}
+			if c.Thorough {
+				sizes = append(sizes, 1<<20)
+			}
+			n := sizes[t.Intn(len(sizes))]
+			d = noise(t, n)
+			desc = fmt.Sprintf("random(%d)", n)
+			c.Probe("large-input")
 		case k <= 6:
 			n := 1 + t.Intn(64)
 			d = noise(t, n)
@@ -171,6 +182,19 @@ func runC14(c *RunCtx) {
 			op.lead = []int{0, 0, 1, 5, 64, 300}[t.Intn(6)]
 			op.slack = []int{0, 1, 64, 4096}[t.Intn(4)]
 			op.twice = t.Intn(3) == 0
+			if j > 0 && t.Intn(3) == 0 {
+				// the caller's pooled buffer: same array, same offsets and length as its previous call,
+				// rewritten in place with other bytes, given to the same service again
+				prev := plans[ti][j-1]
+				op.reuse = true
+				op.algo, op.lead, op.slack = prev.algo, prev.lead, prev.slack
+				op.data = make([]byte, len(prev.data))
+				delta := byte(1 + t.Intn(255))
+				for i := range op.data {
+					op.data[i] = prev.data[i] + delta
+				}
+				op.desc = fmt.Sprintf("previous buffer rewritten in place (+%d on each of %d bytes)", delta, len(op.data))
+			}
 			plans[ti] = append(plans[ti], op)
 		}
 	}
@@ -181,6 +205,7 @@ func runC14(c *RunCtx) {
 	for ti := range plans {
 		ops := plans[ti]
 		sched.Spawn(fmt.Sprintf("caller%d", ti), func() {
+			var prevArr []byte
 			for _, op := range ops {
 				svc, found := codec.Get(sumAlgos[op.algo].Name)
 				op.found = found
@@ -188,10 +213,15 @@ func runC14(c *RunCtx) {
 					continue
 				}
 				n := op.lead + len(op.data)
-				op.arr = make([]byte, n+op.slack)
-				for i := range op.arr {
-					op.arr[i] = marker
+				if op.reuse && len(prevArr) == n+op.slack {
+					op.arr = prevArr
+				} else {
+					op.arr = make([]byte, n+op.slack)
+					for i := range op.arr {
+						op.arr[i] = marker
+					}
 				}
+				prevArr = op.arr
 				copy(op.arr[op.lead:], op.data)
 				op.snap = append([]byte(nil), op.arr...)
 				buf := bytes.NewBuffer(op.arr[:n])
@@ -261,6 +291,9 @@ func runC14(c *RunCtx) {
 			where := fmt.Sprintf("caller%d call #%d: %s.Calc over %s (%d bytes consumed before, slack %d)", ti, j, a.Name, op.desc, op.lead, op.slack)
 			if op.lead > 0 || op.slack == 0 {
 				c.Fire("hist.consumed")
+			}
+			if op.reuse {
+				c.Fire("pool.reuse-in-place")
 			}
 			if op.panicv != nil {
 				c.Oracle("returns")
